@@ -267,6 +267,7 @@ func runC04(in SIn) SOut {
 			oo.Res = errClass(err)
 			surviving = append(surviving, op)
 		case "reorg":
+			_ = run.snap() // every query is also asked right BEFORE the reorg: an answer memoised here must not survive it
 			if err := run.p.Reorg(ctx, op.Num); err != nil {
 				panic(err)
 			}
